@@ -9,7 +9,7 @@ use better_any::{Tid, TidAble};
 use derive_more::{Deref, DerefMut};
 use mahf::{
     components::{Block, Branch, Loop, Scope},
-    conditions::Condition,
+    conditions::{And, Condition, Not, Or},
     state::{common::Iterations, StateReq},
     Component, Configuration, CustomState, ExecResult, State,
 };
@@ -131,7 +131,12 @@ impl Component<TagP> for Probe {
     fn execute(&self, _p: &TagP, state: &mut State<TagP>) -> ExecResult<()> {
         self.shared.hit(self.id, Phase::Exec)?;
         if self.kind == LeafKind::Bump {
-            *state.try_borrow_value_mut::<Cnt>()? += 1;
+            if self.id % 2 == 1 {
+                // the entry API must resolve to the innermost scope holding the type, however deep we are
+                state.entry::<Cnt>().or_default().0 += 1;
+            } else {
+                *state.try_borrow_value_mut::<Cnt>()? += 1;
+            }
         }
         Ok(())
     }
@@ -163,6 +168,46 @@ impl Condition<TagP> for Script {
     }
 }
 
+/// Second operand of a compound condition: constant value, but traced and fault-injectable like every node.
+#[derive(Clone, Serialize)]
+struct Tail {
+    id: u32,
+    value: bool,
+    #[serde(skip)]
+    shared: Arc<Shared>,
+}
+
+impl Condition<TagP> for Tail {
+    fn init(&self, _p: &TagP, _s: &mut State<TagP>) -> ExecResult<()> {
+        self.shared.hit(self.id, Phase::Init)
+    }
+    fn require(&self, _p: &TagP, _r: &StateReq<TagP>) -> ExecResult<()> {
+        self.shared.hit(self.id, Phase::Require)
+    }
+    fn evaluate(&self, _p: &TagP, _s: &mut State<TagP>) -> ExecResult<bool> {
+        self.shared.hit(self.id, Phase::Exec)?;
+        Ok(self.value)
+    }
+}
+
+const TAIL: u32 = 10_000;
+
+/// How the scripted condition of a node is wrapped: 0 plain, 1 `!!c`, 2 `c & true-tail`, 3 `c | false-tail`.
+/// All four have the truth value of `c`; 2 and 3 must evaluate (init, require) the tail every time as well.
+fn cond_box(id: u32, cond: usize, mode: u8, sh: &Arc<Shared>, operators: bool) -> Box<dyn Condition<TagP>> {
+    let s: Box<dyn Condition<TagP>> = Box::new(Script { id, cond, shared: sh.clone() });
+    let tail = |value: bool| -> Box<dyn Condition<TagP>> { Box::new(Tail { id: TAIL + id, value, shared: sh.clone() }) };
+    match (mode, operators) {
+        (0, _) => s,
+        (1, false) => Not::new(Not::new(s)),
+        (1, true) => !(!s),
+        (2, false) => And::new([s, tail(true)]),
+        (2, true) => s & tail(true),
+        (_, false) => Or::new([s, tail(false)]),
+        (_, true) => s | tail(false),
+    }
+}
+
 // ---- trees ----------------------------------------------------------------------------------
 #[derive(Clone, Debug, PartialEq, Eq, Hash)]
 enum Item {
@@ -177,9 +222,9 @@ enum Item {
 #[derive(Clone, Debug)]
 enum Node {
     Leaf { id: u32, kind: LeafKind },
-    While { id: u32, cond: usize, body: Vec<Node> },
-    If { id: u32, cond: usize, body: Vec<Node> },
-    IfElse { id: u32, cond: usize, a: Vec<Node>, b: Vec<Node> },
+    While { id: u32, cond: usize, mode: u8, body: Vec<Node> },
+    If { id: u32, cond: usize, mode: u8, body: Vec<Node> },
+    IfElse { id: u32, cond: usize, mode: u8, a: Vec<Node>, b: Vec<Node> },
     Scope { body: Vec<Node> },
 }
 
@@ -242,6 +287,17 @@ struct Numbering {
     explicit_kinds: Option<Vec<LeafKind>>,
 }
 
+impl Numbering {
+    /// exhaustive trees: variant 0 keeps plain scripted conditions, variants 1 and 2 wrap them; random trees wrap by id
+    fn mode(&self, id: u32) -> u8 {
+        if self.kind_variant == 0 && self.explicit_kinds.is_none() {
+            0
+        } else {
+            ((id as usize + self.kind_variant) % 4) as u8
+        }
+    }
+}
+
 fn number(seq: &[Item], n: &mut Numbering) -> Vec<Node> {
     seq.iter()
         .map(|it| match it {
@@ -260,14 +316,14 @@ fn number(seq: &[Item], n: &mut Numbering) -> Vec<Node> {
                 n.next_id += 1;
                 let cond = n.next_cond;
                 n.next_cond += 1;
-                Node::While { id, cond, body: number(b, n) }
+                Node::While { id, cond, mode: n.mode(id), body: number(b, n) }
             }
             Item::If(b) => {
                 let id = n.next_id;
                 n.next_id += 1;
                 let cond = n.next_cond;
                 n.next_cond += 1;
-                Node::If { id, cond, body: number(b, n) }
+                Node::If { id, cond, mode: n.mode(id), body: number(b, n) }
             }
             Item::IfElse(a, b) => {
                 let id = n.next_id;
@@ -276,7 +332,7 @@ fn number(seq: &[Item], n: &mut Numbering) -> Vec<Node> {
                 n.next_cond += 1;
                 let a = number(a, n);
                 let b = number(b, n);
-                Node::IfElse { id, cond, a, b }
+                Node::IfElse { id, cond, mode: n.mode(id), a, b }
             }
             Item::Scope(b) => Node::Scope { body: number(b, n) },
         })
@@ -289,11 +345,9 @@ fn build_direct(seq: &[Node], sh: &Arc<Shared>) -> Vec<Box<dyn Component<TagP>>>
         .map(|n| -> Box<dyn Component<TagP>> {
             match n {
                 Node::Leaf { id, kind } => Box::new(Probe { id: *id, kind: *kind, shared: sh.clone() }),
-                Node::While { id, cond, body } => Loop::new(Box::new(Script { id: *id, cond: *cond, shared: sh.clone() }), build_direct(body, sh)),
-                Node::If { id, cond, body } => Branch::new(Box::new(Script { id: *id, cond: *cond, shared: sh.clone() }), build_direct(body, sh)),
-                Node::IfElse { id, cond, a, b } => {
-                    Branch::new_with_else(Box::new(Script { id: *id, cond: *cond, shared: sh.clone() }), build_direct(a, sh), build_direct(b, sh))
-                }
+                Node::While { id, cond, mode, body } => Loop::new(cond_box(*id, *cond, *mode, sh, false), build_direct(body, sh)),
+                Node::If { id, cond, mode, body } => Branch::new(cond_box(*id, *cond, *mode, sh, false), build_direct(body, sh)),
+                Node::IfElse { id, cond, mode, a, b } => Branch::new_with_else(cond_box(*id, *cond, *mode, sh, false), build_direct(a, sh), build_direct(b, sh)),
                 Node::Scope { body } => Scope::new(build_direct(body, sh)),
             }
         })
@@ -304,11 +358,9 @@ fn build_dsl(seq: &[Node], sh: &Arc<Shared>, mut b: mahf::configuration::Configu
     for n in seq {
         b = match n {
             Node::Leaf { id, kind } => b.do_(Box::new(Probe { id: *id, kind: *kind, shared: sh.clone() })),
-            Node::While { id, cond, body } => b.while_(Box::new(Script { id: *id, cond: *cond, shared: sh.clone() }), |bb| build_dsl(body, sh, bb)),
-            Node::If { id, cond, body } => b.if_(Box::new(Script { id: *id, cond: *cond, shared: sh.clone() }), |bb| build_dsl(body, sh, bb)),
-            Node::IfElse { id, cond, a, b: e } => {
-                b.if_else_(Box::new(Script { id: *id, cond: *cond, shared: sh.clone() }), |bb| build_dsl(a, sh, bb), |bb| build_dsl(e, sh, bb))
-            }
+            Node::While { id, cond, mode, body } => b.while_(cond_box(*id, *cond, *mode, sh, true), |bb| build_dsl(body, sh, bb)),
+            Node::If { id, cond, mode, body } => b.if_(cond_box(*id, *cond, *mode, sh, true), |bb| build_dsl(body, sh, bb)),
+            Node::IfElse { id, cond, mode, a, b: e } => b.if_else_(cond_box(*id, *cond, *mode, sh, true), |bb| build_dsl(a, sh, bb), |bb| build_dsl(e, sh, bb)),
             Node::Scope { body } => b.scope_(|bb| build_dsl(body, sh, bb)),
         };
     }
@@ -376,23 +428,20 @@ impl<'a> Interp<'a> {
                         _ => {}
                     }
                 }
-                Node::While { id, cond, body } => {
+                Node::While { id, cond, mode, body } => {
                     self.top().insert(K::Iter, 0);
                     if self.st.len() == 1 {
                         self.loops_at_root += 1;
                     }
-                    self.hit(*id, Phase::Init)?;
-                    self.pos[*cond] = 0;
+                    self.cond_init(*id, *cond, *mode)?;
                     self.init_seq(body)?;
                 }
-                Node::If { id, cond, body } => {
-                    self.hit(*id, Phase::Init)?;
-                    self.pos[*cond] = 0;
+                Node::If { id, cond, mode, body } => {
+                    self.cond_init(*id, *cond, *mode)?;
                     self.init_seq(body)?;
                 }
-                Node::IfElse { id, cond, a, b } => {
-                    self.hit(*id, Phase::Init)?;
-                    self.pos[*cond] = 0;
+                Node::IfElse { id, cond, mode, a, b } => {
+                    self.cond_init(*id, *cond, *mode)?;
                     self.init_seq(a)?;
                     self.init_seq(b)?;
                 }
@@ -418,12 +467,18 @@ impl<'a> Interp<'a> {
                         }
                     }
                 }
-                Node::While { id, body, .. } | Node::If { id, body, .. } => {
+                Node::While { id, mode, body, .. } | Node::If { id, mode, body, .. } => {
                     self.hit(*id, Phase::Require)?;
+                    if *mode >= 2 {
+                        self.hit(TAIL + *id, Phase::Require)?;
+                    }
                     self.require_seq(body)?;
                 }
-                Node::IfElse { id, a, b, .. } => {
+                Node::IfElse { id, mode, a, b, .. } => {
                     self.hit(*id, Phase::Require)?;
+                    if *mode >= 2 {
+                        self.hit(TAIL + *id, Phase::Require)?;
+                    }
                     self.require_seq(a)?;
                     self.require_seq(b)?;
                 }
@@ -433,10 +488,24 @@ impl<'a> Interp<'a> {
         Ok(())
     }
 
-    fn eval(&mut self, id: u32, cond: usize) -> Result<bool, Stop> {
+    /// every operand of a compound condition is initialised, in order
+    fn cond_init(&mut self, id: u32, cond: usize, mode: u8) -> Result<(), Stop> {
+        self.hit(id, Phase::Init)?;
+        self.pos[cond] = 0;
+        if mode >= 2 {
+            self.hit(TAIL + id, Phase::Init)?;
+        }
+        Ok(())
+    }
+
+    /// every operand is evaluated on every test (no short-circuit); the first failing operand stops the run
+    fn eval(&mut self, id: u32, cond: usize, mode: u8) -> Result<bool, Stop> {
         self.hit(id, Phase::Exec)?;
         let p = self.pos[cond];
         self.pos[cond] += 1;
+        if mode >= 2 {
+            self.hit(TAIL + id, Phase::Exec)?;
+        }
         Ok(self.scripts[cond].get(p).copied().unwrap_or(false))
     }
 
@@ -449,12 +518,11 @@ impl<'a> Interp<'a> {
                         *self.innermost(K::Cnt).expect("caller provides Cnt") += 1;
                     }
                 }
-                Node::While { id, cond, body } => {
+                Node::While { id, cond, mode, body } => {
                     // re-initialise the condition on entry
-                    self.hit(*id, Phase::Init)?;
-                    self.pos[*cond] = 0;
+                    self.cond_init(*id, *cond, *mode)?;
                     let mut passes = 0;
-                    while self.eval(*id, *cond)? {
+                    while self.eval(*id, *cond, *mode)? {
                         self.exec_seq(body)?;
                         *self.innermost(K::Iter).expect("loop init inserted Iterations") += 1;
                         passes += 1;
@@ -463,13 +531,13 @@ impl<'a> Interp<'a> {
                         self.zero_iter_loops += 1;
                     }
                 }
-                Node::If { id, cond, body } => {
-                    if self.eval(*id, *cond)? {
+                Node::If { id, cond, mode, body } => {
+                    if self.eval(*id, *cond, *mode)? {
                         self.exec_seq(body)?;
                     }
                 }
-                Node::IfElse { id, cond, a, b } => {
-                    if self.eval(*id, *cond)? {
+                Node::IfElse { id, cond, mode, a, b } => {
+                    if self.eval(*id, *cond, *mode)? {
                         self.exec_seq(a)?;
                     } else {
                         self.exec_seq(b)?;
@@ -513,12 +581,18 @@ fn collect_ids(seq: &[Node], out: &mut Vec<(u32, bool)>) {
     for n in seq {
         match n {
             Node::Leaf { id, .. } => out.push((*id, false)),
-            Node::While { id, body, .. } | Node::If { id, body, .. } => {
+            Node::While { id, mode, body, .. } | Node::If { id, mode, body, .. } => {
                 out.push((*id, true));
+                if *mode >= 2 {
+                    out.push((TAIL + *id, true));
+                }
                 collect_ids(body, out);
             }
-            Node::IfElse { id, a, b, .. } => {
+            Node::IfElse { id, mode, a, b, .. } => {
                 out.push((*id, true));
+                if *mode >= 2 {
+                    out.push((TAIL + *id, true));
+                }
                 collect_ids(a, out);
                 collect_ids(b, out);
             }
@@ -796,7 +870,7 @@ fn random_shape(rng: &mut SplitMix64, budget: &mut usize, depth: usize) -> Vec<I
 
 fn main() {
     let rep = Reporter::from_args("C03");
-    rep.rule("configurations over {probe leaf (7 kinds: plain, create marker in init, require marker, bump outer counter, shadow the caller's sentinel), sequence, while, if, if/else, scope} built with the builder DSL and with Block/Loop/Branch/Scope::new, run with Configuration::run on a caller state holding sentinels; scripted condition outcomes (all sequences up to length 3 per condition) and every single fault point (node x phase x 1st/2nd call); the recorded (phase,node) trace, the returned result and the caller's final state are compared with a reference interpreter written from the statement. Exhaustive over all trees up to the stated node count; plus seeded random trees up to 40 nodes, depth <= 7. distinct_nontrivial = distinct (tree, scripts, fault) cases that failed, entered a scope, or had a zero-iteration loop");
+    rep.rule("configurations over {probe leaf (7 kinds: plain, create marker in init, require marker, bump outer counter - through try_borrow_value_mut or through the entry API, shadow the caller's sentinel), sequence, while, if, if/else, scope; the scripted condition of a node plain or wrapped as !!c, c & traced-true-operand, c | traced-false-operand (constructors and operators), every operand traced and fault-injectable: all operands initialised, required and evaluated on every test, no short-circuit} built with the builder DSL and with Block/Loop/Branch/Scope::new, run with Configuration::run on a caller state holding sentinels; scripted condition outcomes (all sequences up to length 3 per condition) and every single fault point (node x phase x 1st/2nd call); the recorded (phase,node) trace, the returned result and the caller's final state are compared with a reference interpreter written from the statement. Exhaustive over all trees up to the stated node count; plus seeded random trees up to 40 nodes, depth <= 7. distinct_nontrivial = distinct (tree, scripts, fault) cases that failed, entered a scope, or had a zero-iteration loop");
     rep.assume("Script conditions keep their position harness-side and reset it in init(); Iterations is only compared when no scope level holds two loops");
     let max_nodes = rep.tier.pick(3usize, 4usize);
     rep.set("exhaustive_max_nodes", json!(max_nodes));
